@@ -7,8 +7,9 @@
 // message `GEN-BROKEN <ID> <item>: ...`): the tie is broken, the check then searches for a
 // failing input. Files are rewritten only when their content changes (keeps lake's cache warm).
 //
-// usage: ssvgen --repo /repo --out /verif/lean/SSV/Gen [ID ...]
-package main
+// One small binary per property (cmd/gen_cXX) calls gen.Main(id, f):
+// usage: gen_cXX --repo /repo --out /verif/lean/SSV/Gen
+package gen
 
 import (
 	"flag"
@@ -22,7 +23,6 @@ import (
 	"go/types"
 	"os"
 	"path/filepath"
-	"sort"
 	"strings"
 )
 
@@ -332,51 +332,41 @@ func (l *Lean) Consts(p *Pkg, names ...string) error {
 	return nil
 }
 
-type genFunc func(c *Ctx, l *Lean) error
+// Func is a per-property generator: it loads packages through c and writes Lean through l.
+type Func func(c *Ctx, l *Lean) error
 
-var registry = map[string]genFunc{}
-
-func main() {
+// Main is the body of every cmd/gen_cXX binary.
+func Main(id string, g Func) {
 	repo := flag.String("repo", "/repo", "repository root")
 	out := flag.String("out", "/verif/lean/SSV/Gen", "output directory")
 	flag.Parse()
-	ids := flag.Args()
-	if len(ids) == 0 {
-		for id := range registry {
-			ids = append(ids, id)
-		}
-	}
-	sort.Strings(ids)
 	if err := os.Chdir(*repo); err != nil { // the source importer resolves the module from the cwd
 		fmt.Fprintln(os.Stderr, err)
 		os.Exit(3)
 	}
 	ctx := NewCtx(*repo)
-	status := 0
-	for _, id := range ids {
-		g, ok := registry[id]
-		if !ok {
-			continue
-		}
-		l := &Lean{id: id}
-		fmt.Fprintf(&l.sb, "-- REGENERATED by /verif/harness/cmd/ssvgen from the /repo working tree on every run. Do not edit.\nnamespace SSV.Gen.%s\n", id)
-		path := filepath.Join(*out, id+".lean")
-		if err := g(ctx, l); err != nil {
-			fmt.Printf("GEN-BROKEN %s: %v\n", id, err)
-			status = 4
-			// leave a file that does not elaborate, so that no theorem is checked against stale facts
-			os.WriteFile(path, []byte(fmt.Sprintf("-- generation failed: %s\n#exit_gen_broken\n", strings.ReplaceAll(err.Error(), "\n", " "))), 0o644)
-			continue
-		}
-		fmt.Fprintf(&l.sb, "end SSV.Gen.%s\n", id)
-		old, _ := os.ReadFile(path)
-		if string(old) != l.sb.String() {
-			if err := os.WriteFile(path, []byte(l.sb.String()), 0o644); err != nil {
-				fmt.Fprintln(os.Stderr, err)
-				os.Exit(3)
-			}
-			fmt.Printf("GEN-UPDATED %s\n", id)
-		}
+	l := &Lean{id: id}
+	fmt.Fprintf(&l.sb, "-- REGENERATED by /verif/harness/cmd/gen_%s from the /repo working tree on every run. Do not edit.\nnamespace SSV.Gen.%s\n", strings.ToLower(id), id)
+	path := filepath.Join(*out, id+".lean")
+	if err := g(ctx, l); err != nil {
+		fmt.Printf("GEN-BROKEN %s: %v\n", id, strings.ReplaceAll(err.Error(), "\n", " "))
+		// leave a file that does not elaborate, so that no theorem is checked against stale facts
+		os.WriteFile(path, []byte(fmt.Sprintf("-- generation failed: %s\n#exit_gen_broken\n", strings.ReplaceAll(err.Error(), "\n", " "))), 0o644)
+		os.Exit(4)
 	}
-	os.Exit(status)
+	fmt.Fprintf(&l.sb, "end SSV.Gen.%s\n", id)
+	old, _ := os.ReadFile(path)
+	if string(old) != l.sb.String() {
+		if err := os.WriteFile(path, []byte(l.sb.String()), 0o644); err != nil {
+			fmt.Fprintln(os.Stderr, err)
+			os.Exit(3)
+		}
+		fmt.Printf("GEN-UPDATED %s\n", id)
+	}
 }
+
+// LeanStrList renders a Lean `List String` literal.
+func LeanStrList(xs []string) string { return leanStrList(xs) }
+
+// LeanString renders a Lean string literal.
+func LeanString(s string) string { return leanString(s) }
